@@ -103,18 +103,27 @@ func runSigRepo() int {
 	fn := func(c rawCase) []traceLine {
 		var in RepoIn
 		must(json.Unmarshal(c.In, &in))
-		variant := []string{"memory", "oci", "ociReopen"}[mix(*flagSeed, c.ID, "store")%3]
+		// memory / one handle on an on-disk layout / re-opened once mid-history / ociFresh: EVERY operation through a handle of
+		// its own (as separate program runs would), signatures through registry.NewOCIRepository
+		var dir0 func() string
+		variant := []string{"memory", "oci", "ociReopen", "ociFresh"}[mix(*flagSeed, c.ID, "store")%4]
 		for _, it := range in.Items {
 			// oras cannot re-open a layout holding a manifest whose subject descriptor states a wrong size
-			if it.Kind == "subjSize" && variant == "ociReopen" {
+			if it.Kind == "subjSize" && (variant == "ociReopen" || variant == "ociFresh") {
 				variant = "oci"
 			}
+		}
+		ociRepo := func() registry.Repository {
+			r, err := registry.NewOCIRepository(dir0(), registry.RepositoryOptions{})
+			must(err)
+			return r
 		}
 		ctx := context.Background()
 		obs := RepoObs{Audits: []RepoAudit{}}
 		dir, err := os.MkdirTemp(*flagScratch, "sigrepo")
 		must(err)
 		defer os.RemoveAll(dir)
+		dir0 = func() string { return dir }
 		var target *recTarget
 		open := func() {
 			if variant == "memory" {
@@ -138,10 +147,13 @@ func runSigRepo() int {
 		}
 		var items []itemRec
 		for n, it := range in.Items {
-			if variant == "ociReopen" && n == len(in.Items)/2 {
+			if (variant == "ociReopen" && n == len(in.Items)/2) || variant == "ociFresh" {
 				open()
 			}
 			repo := registry.NewRepository(target)
+			if variant == "ociFresh" {
+				repo = ociRepo()
+			}
 			subj := subjects[it.S]
 			blob := []byte(fmt.Sprintf("envelope-%d-%d-%s", c.ID, n, strings.Repeat("x", n*37)))
 			ann := map[string]string{"io.cncf.notary.x509chain.thumbprint#S256": fmt.Sprintf("[\"%064d\"]", n), ocispec.AnnotationCreated: fmt.Sprintf("2024-02-%02dT00:00:00Z", n+1)}
@@ -232,6 +244,13 @@ func runSigRepo() int {
 				l := layer(blob, mtJWS)
 				rec.layers = []digest.Digest{l.Digest}
 				rec.manifest = img(artifactTypeNotation, &subj, []ocispec.Descriptor{l}, 4*1024*1024+1)
+			case "hostileBigLegacy":
+				// the same in the legacy artifact-manifest form
+				l := layer(blob, mtJWS)
+				rec.layers = []digest.Digest{l.Digest}
+				d, err := pushJSON(ctx, target, mediaTypeLegacyArtifact, legacyArtifact{MediaType: mediaTypeLegacyArtifact, ArtifactType: artifactTypeNotation, Blobs: []ocispec.Descriptor{l}, Subject: &subj, Annotations: ann}, 4*1024*1024+1)
+				must(err)
+				rec.manifest = d
 			default:
 				panic("unknown item kind " + it.Kind)
 			}
@@ -245,6 +264,9 @@ func runSigRepo() int {
 			}
 			panicked, msg = guarded(func() {
 				repo := registry.NewRepository(target)
+				if variant == "ociFresh" {
+					repo = ociRepo() // (the fetch log of the recording target is not available through this handle)
+				}
 				for _, s := range []string{"s1", "s2", "s3"} {
 					lst := []int{}
 					err := repo.ListSignatures(ctx, subjects[s], func(ms []ocispec.Descriptor) error {
@@ -291,7 +313,7 @@ func runSigRepo() int {
 									au.Touched = true
 								}
 							}
-							if kind == "hostileBigManifest" && f == r.manifest.Digest {
+							if (kind == "hostileBigManifest" || kind == "hostileBigLegacy") && f == r.manifest.Digest {
 								au.Touched = true
 							}
 						}
